@@ -8,7 +8,9 @@
 (* Memory lists: acc [[page, "R"|"W"|"N"]..] ("N": a page object that is present    *)
 (* but inaccessible - the same as absent, its stale contents are unobservable),     *)
 (* data [[page, off, byte]..] non-zero bytes.                                       *)
-(* Also checked on every record: machine identifiers are unique; no Go panic.       *)
+(* Also checked on every record: machine identifiers are unique; no Go panic; when  *)
+(* the guest stored bytes before the call (pre0, set): exactly those outer bytes     *)
+(* changed and no inner machine did.                                                *)
 (*                                                                                 *)
 (* Named deviations (enabled only when listed in KnownDeviations): none at present. *)
 EXTENDS HostRefine, Json
@@ -68,24 +70,28 @@ Deviations(e, ws) == {}
 
 \* ------------------------------------------------------------------ end-to-end records (k = "e2e")
 \* The same calls issued by a REAL outer program through Psi_M (ecalli dispatch, RefineOmegas, the context carried
-\* from call to call): {k, ops:[{call, w, set:[[addr, bytes]..]}..], image:{acc, data} (memory after standard
+\* from call to call): {k, log (address of the result log), ops:[{call, w, set:[[addr, bytes]..]}..], image:{acc, data} (memory after standard
 \* initialisation), res:{kind: halt|panic|oog|gopanic, out: bytes, m, used}}.  The program stores omega7 and omega8
 \* after every call into a log that it returns on halt.  The specification folds Apply over the script (every
 \* permitted alternative is followed) and must reproduce the log, the way the invocation ends and the final machines.
 LoadW(o, w) == [o EXCEPT !.regs = [i \in 1..13 |-> IF i >= 8 THEN w[i - 7] ELSE @[i]]]
 RECURSIVE ApplySets(_, _, _)
 ApplySets(o, sets, i) == IF i > Len(sets) THEN o ELSE ApplySets(PutBytes(o, LE(sets[i][1], 8), sets[i][2]), sets, i + 1)
-RECURSIVE E2EFold(_, _, _)
-E2EFold(ops, i, S) ==
+\* after a call that continues the program stores omega7 and omega8 at logAt + 16 (i - 1): part of the outer memory
+Logged(out, logAt, i) ==
+  IF out.exit # "continue" THEN out.o
+  ELSE PutBytes(PutBytes(out.o, LE(logAt + 16 * (i - 1), 8), out.o.regs[8]), LE(logAt + 16 * (i - 1) + 8, 8), out.o.regs[9])
+RECURSIVE E2EFold(_, _, _, _)
+E2EFold(ops, i, S, logAt) ==
   IF i > Len(ops) THEN S
   ELSE LET op == ops[i]
            step(s) == IF s.exit # "continue" THEN {s}
                       ELSE LET outs == Apply(op.call, LoadW(ApplySets(s.o, op.set, 1), op.w), s.m)
                            IN IF Len(outs) = 0 THEN {[s EXCEPT !.exit = "unjudged"]}
-                              ELSE {[o |-> outs[j].o, m |-> outs[j].m, exit |-> outs[j].exit,
+                              ELSE {[o |-> Logged(outs[j], logAt, i), m |-> outs[j].m, exit |-> outs[j].exit,
                                      log |-> Append(s.log, [w7 |-> outs[j].o.regs[8], w8 |-> outs[j].o.regs[9], fault |-> outs[j].fault])]
                                     : j \in 1..Len(outs)}
-       IN E2EFold(ops, i + 1, UNION {step(s) : s \in S})
+       IN E2EFold(ops, i + 1, UNION {step(s) : s \in S}, logAt)
 LogMatches(log, out) ==
   /\ Len(out) = 16 * Len(log)
   /\ \A j \in 1..Len(log) :
@@ -97,7 +103,7 @@ JudgeE2E(e) ==
   IF e.res.kind = "gopanic" THEN {[why |-> "e2e:gopanic", want |-> NoWant]}
   ELSE
   LET o0 == [regs |-> [i \in 1..13 |-> U64Zero], gas |-> 1000000, acc |-> AccOfL(e.image.acc), data |-> DataOfL(e.image.data)]
-      S == E2EFold(e.ops, 1, {[o |-> o0, m |-> <<>>, exit |-> "continue", log |-> <<>>]})
+      S == E2EFold(e.ops, 1, {[o |-> o0, m |-> <<>>, exit |-> "continue", log |-> <<>>]}, e.log)
       pm == MOf(e.res.m)
       ok(s) == \/ s.exit = "unjudged"
                \/ s.exit = "continue" /\ e.res.kind = "halt" /\ LogMatches(s.log, e.res.out) /\ MapEq(pm, s.m)
@@ -108,9 +114,19 @@ JudgeE2E(e) ==
      ELSE {[why |-> "e2e:" \o one.exit \o "-vs-" \o e.res.kind,
             want |-> [exit |-> one.exit, log |-> [j \in 1..Len(one.log) |-> <<one.log[j].w7, one.log[j].w8>>], ids |-> SetToSeq(DOMAIN one.m)]]}
 
+\* a record with `pre0` / `set`: the outer machine stored bytes between the previous call and this one; those stores
+\* change exactly the outer bytes written - no inner machine sees them (memory is copied by poke / peek, never shared)
+GuestStoresOk(e) ==
+  LET o0 == FrameOf(e.pre0)
+      o1 == ApplySets(o0, e.set, 1)
+  IN /\ NormMem(FrameOf(e.pre)).data = NormMem(o1).data
+     /\ FrameOf(e.pre).acc = o0.acc
+     /\ MapEq(MOf(e.pre.m), MOf(e.pre0.m))
+
 \* set of [why, want] labels; empty = the record conforms
 Judge(e) ==
   IF "k" \in DOMAIN e THEN JudgeE2E(e) ELSE
+  IF "pre0" \in DOMAIN e /\ ~GuestStoresOk(e) THEN {[why |-> "outer-store-leaks-into-machine", want |-> NoWant]} ELSE
   IF ~UniqueIds(e.pre.m) \/ ~UniqueIds(e.post.m) THEN {[why |-> "duplicate-machine-id", want |-> NoWant]}
   ELSE LET ws == Outcomes(e) IN
        IF e.post.exit = "gopanic" THEN {[why |-> "gopanic:" \o e.call, want |-> IF Len(ws) > 0 THEN Summary(ws[1]) ELSE NoWant]}
